@@ -410,19 +410,23 @@ theorem startExisting_fields (p : Params) (s : S) :
   by_cases hpe : s.pendingExisting = true
   · by_cases hs : s.st = .success
     · simp [startExisting, hpe, hs, potential, contJobs, b2n]
-    · by_cases hg : s.st = .running ∧ hasOutstanding s.acts = true
-      · simp [startExisting, hpe, hs, hg, potential, contJobs, b2n]
-      · by_cases hx : p.execTimeoutRaises = true
-        · simp [startExisting, hpe, hs, hg, hx, scheduleAction, crash, potential, contJobs, b2n]
-        · by_cases hr : s.st = .running ∧ s.msg = .none
-          · have ho : hasOutstanding s.acts = false := by
-              cases h : hasOutstanding s.acts with
-              | false => rfl
-              | true => exact absurd ⟨hr.1, h⟩ hg
-            simp [startExisting, hpe, hs, ho, hx, hr, scheduleAction, setRunningExisting, potential, contJobs, b2n, resetActions]
-            omega
-          · simp [startExisting, hpe, hs, hg, hx, hr, scheduleAction, setRunningExisting, potential, contJobs, b2n, resetActions]
-            omega
+    · by_cases hc : isCompleted s.st = true
+      · simp [startExisting, hpe, hs, hc, potential, contJobs, b2n]
+      · have hc' : isCompleted s.st = false := by simpa using hc
+        have hcr : isCompleted TSt.running = false := rfl
+        by_cases hg : s.st = .running ∧ hasOutstanding s.acts = true
+        · simp [startExisting, hpe, hs, hc', hcr, hg, potential, contJobs, b2n]
+        · by_cases hx : p.execTimeoutRaises = true
+          · simp [startExisting, hpe, hs, hc', hcr, hg, hx, scheduleAction, crash, potential, contJobs, b2n]
+          · by_cases hr : s.st = .running ∧ s.msg = .none
+            · have ho : hasOutstanding s.acts = false := by
+                cases h : hasOutstanding s.acts with
+                | false => rfl
+                | true => exact absurd ⟨hr.1, h⟩ hg
+              simp [startExisting, hpe, hs, hc', hcr, ho, hx, hr, scheduleAction, setRunningExisting, potential, contJobs, b2n, resetActions]
+              omega
+            · simp [startExisting, hpe, hs, hc', hcr, hg, hx, hr, scheduleAction, setRunningExisting, potential, contJobs, b2n, resetActions]
+              omega
   · simp [startExisting, hpe]
 
 theorem startExisting_adv (p : Params) (s : S) : Adv p s (startExisting p s) := by
@@ -829,17 +833,21 @@ theorem step_jobs (p : Params) (s : S) (e : Ev) : ∀ j ∈ (step p s e).jobs, j
       by_cases hpe : s.pendingExisting = true
       · by_cases hs : s.st = .success
         · simp [startExisting, hpe, hs]
-        · by_cases hg : s.st = .running ∧ hasOutstanding s.acts = true
-          · simp [startExisting, hpe, hs, hg]
-          · by_cases hx : p.execTimeoutRaises = true
-            · simp [startExisting, hpe, hs, hg, hx, scheduleAction, crash]
-            · by_cases hr : s.st = .running ∧ s.msg = .none
-              · have ho : hasOutstanding s.acts = false := by
-                  cases h : hasOutstanding s.acts with
-                  | false => rfl
-                  | true => exact absurd ⟨hr.1, h⟩ hg
-                simp [startExisting, hpe, hs, ho, hx, hr, scheduleAction, setRunningExisting]
-              · simp [startExisting, hpe, hs, hg, hx, hr, scheduleAction, setRunningExisting]
+        · by_cases hc : isCompleted s.st = true
+          · simp [startExisting, hpe, hs, hc]
+          · have hc' : isCompleted s.st = false := by simpa using hc
+            have hcr : isCompleted TSt.running = false := rfl
+            by_cases hg : s.st = .running ∧ hasOutstanding s.acts = true
+            · simp [startExisting, hpe, hs, hc', hcr, hg]
+            · by_cases hx : p.execTimeoutRaises = true
+              · simp [startExisting, hpe, hs, hc', hcr, hg, hx, scheduleAction, crash]
+              · by_cases hr : s.st = .running ∧ s.msg = .none
+                · have ho : hasOutstanding s.acts = false := by
+                    cases h : hasOutstanding s.acts with
+                    | false => rfl
+                    | true => exact absurd ⟨hr.1, h⟩ hg
+                  simp [startExisting, hpe, hs, hc', hcr, ho, hx, hr, scheduleAction, setRunningExisting]
+                · simp [startExisting, hpe, hs, hc', hcr, hg, hx, hr, scheduleAction, setRunningExisting]
       · simp [startExisting, hpe]
     rw [this]; exact fun j h => Or.inl h
   | result i o c b =>
@@ -1100,15 +1108,19 @@ theorem step_crashes (p : Params) (s : S) (e : Ev) (hx : p.execTimeoutRaises = f
     by_cases hpe : s.pendingExisting = true
     · by_cases hs : s.st = .success
       · simp [startExisting, hpe, hs]
-      · by_cases hg : s.st = .running ∧ hasOutstanding s.acts = true
-        · simp [startExisting, hpe, hs, hg]
-        · by_cases hr : s.st = .running ∧ s.msg = .none
-          · have ho : hasOutstanding s.acts = false := by
-              cases h : hasOutstanding s.acts with
-              | false => rfl
-              | true => exact absurd ⟨hr.1, h⟩ hg
-            simp [startExisting, hpe, hs, ho, hx, hr, scheduleAction, setRunningExisting]
-          · simp [startExisting, hpe, hs, hg, hx, hr, scheduleAction, setRunningExisting]
+      · by_cases hc : isCompleted s.st = true
+        · simp [startExisting, hpe, hs, hc]
+        · have hc' : isCompleted s.st = false := by simpa using hc
+          have hcr : isCompleted TSt.running = false := rfl
+          by_cases hg : s.st = .running ∧ hasOutstanding s.acts = true
+          · simp [startExisting, hpe, hs, hc', hcr, hg]
+          · by_cases hr : s.st = .running ∧ s.msg = .none
+            · have ho : hasOutstanding s.acts = false := by
+                cases h : hasOutstanding s.acts with
+                | false => rfl
+                | true => exact absurd ⟨hr.1, h⟩ hg
+              simp [startExisting, hpe, hs, hc', hcr, ho, hx, hr, scheduleAction, setRunningExisting]
+            · simp [startExisting, hpe, hs, hc', hcr, hg, hx, hr, scheduleAction, setRunningExisting]
     · simp [startExisting, hpe]
   | result i o c b =>
     simp only [step, result]
@@ -1220,6 +1232,41 @@ theorem error_final_step (p : Params) (s : S) (e : Ev) (h : s.st = .error) (hpe 
   | wfDone => simp only [step]; split <;> exact ⟨h, rfl, hpe⟩
 
 
+
+/-- since repo_patches/20 (a stale start request for a completed task is ignored) without the proviso -/
+theorem error_final_step_full (p : Params) (s : S) (e : Ev) (h : s.st = .error) :
+    (step p s e).st = .error ∧ (step p s e).acts.length = s.acts.length := by
+  have hc : isCompleted s.st = true := by rw [h]; rfl
+  cases e with
+  | startNew =>
+    by_cases hp : s.pendingNew = true
+    · simp [step, startNew, hp, h]
+    · simp [step, startNew, hp, h]
+  | startExisting =>
+    by_cases hpe : s.pendingExisting = true
+    · simp [step, startExisting, hpe, h, isCompleted]
+    · simp [step, startExisting, hpe, h]
+  | result i o c b =>
+    simp only [step, result]
+    split
+    · exact ⟨h, rfl⟩
+    · split
+      · exact ⟨h, rfl⟩
+      · simp [completeTask, h, isCompleted]
+  | fire idx =>
+    simp only [step, fire]
+    split
+    · exact ⟨h, rfl⟩
+    · split
+      · exact ⟨h, rfl⟩
+      · split <;> simp [h, isCompleted]
+  | tick dt => exact ⟨h, rfl⟩
+  | resume =>
+    simp only [step, resume]
+    split
+    · exact ⟨h, rfl⟩
+    · simp [h, isCompleted]; split <;> simp [h]
+  | wfDone => simp only [step]; split <;> exact ⟨h, rfl⟩
 
 theorem afterAll_illTyped (p : Params) (hw : p.wellTyped = false) (x : S) : ∃ y, afterAll p x = .raise y := by
   cases hr : afterAll p x with
